@@ -12,7 +12,7 @@ from iOpt.trial import Point, FunctionValue, FunctionType
 LEVEL = "exploration"
 RULE = ("long interleaved histories of constructions and evaluations over pools of live instances of all eight families (two instances of the same member included, members "
         "drawn across their ranges, points as arrays and lists, repeated points, StronginC3 objective and its three constraints): every evaluation is compared bitwise with "
-        "the canonical value = first evaluation on a freshly constructed instance, the point is compared with a copy taken before the call, the returned object must be the "
+        "the canonical value = first evaluation on a freshly constructed instance (the bit-identical point is also put to sibling members of the family back to back, repeated immediately, evaluated first after construction at the declared optimum, and holders handed back by earlier calls are reused), the point is compared with a copy taken before the call, the returned object must be the "
         "supplied holder carrying the value; a sample of keys is re-evaluated in a fresh interpreter. Non-trivial: a history with >= 50 evaluations over >= 5 instances; "
         "distinct = distinct (family, member, point, function id) keys evaluated.")
 ASSUMPTIONS = ["values are compared bitwise (same machine, same libm)", "points inside the box of the instance"]
@@ -54,30 +54,11 @@ def run_case(c):
     keys_seen = set()
     xq = []
     fresh = {}
-    for step in range(c["evals"] * 2):
-        if nev >= c["evals"]:
-            break
-        u = rng.random()
-        if not pool or u < 0.12:
-            key = random_key(rng) if (not pool or rng.random() < 0.7) else pool[int(rng.integers(len(pool)))][0]
-            pool.append((key, bench.construct(key)))
-            obs["constructions"] = obs.get("constructions", 0) + 1
-            if len(pool) > 60:
-                pool.pop(int(rng.integers(len(pool))))
-            continue
-        key, inst = pool[int(rng.integers(len(pool)))]
-        lo, hi = bench.bounds(inst)
-        plist = points.setdefault(key, [])
-        if plist and rng.random() < 0.45:
-            y = plist[int(rng.integers(len(plist)))].copy()
-        else:
-            y = lo + rng.random(len(lo)) * (hi - lo)
-            if rng.random() < 0.1:
-                y = np.where(rng.random(len(lo)) < 0.5, lo, hi).astype(float)
-            plist.append(y.copy())
-        fid = None
-        if key[0] == "stronginc3" and rng.random() < 0.6:
-            fid = int(rng.integers(0, 3))
+    fam_points = {}    # (family, dimension) -> points used by ANY member of the family (siblings share their box)
+    last_ret = [None]  # the holder returned by the previous objective evaluation (library idiom: fv = p.Calculate(pt, fv))
+
+    def do_eval(key, inst, y, fid, how):
+        nonlocal nev
         ck = (key, y.tobytes(), fid)
         if ck not in canon:
             # canonical value: a freshly constructed instance (kept for at most 6 first-time evaluations, then rebuilt)
@@ -93,17 +74,24 @@ def run_case(c):
         arg = [float(v) for v in y] if as_list else y.copy()
         before = list(arg) if as_list else arg.copy()
         pt = Point(arg, [])
-        fv = bench.holder(fid)
+        if fid is None and last_ret[0] is not None and rng.random() < 0.3:
+            fv = last_ret[0]              # reuse the holder handed back by the previous call
+            obs["holder_reused"] = obs.get("holder_reused", 0) + 1
+        else:
+            fv = bench.holder(fid)
         ret = inst.Calculate(pt, fv)
         nev += 1
+        obs["how_" + how] = obs.get("how_" + how, 0) + 1
         keys_seen.add((key, y.tobytes(), fid))
         if ret is not fv:
             if len(viol) < 5:
-                viol.append({"mech": "purity:returned-object-is-not-the-supplied-holder", "key": list(key)})
+                viol.append({"mech": "purity:returned-object-is-not-the-supplied-holder", "key": list(key), "how": how})
+        if fid is None:
+            last_ret[0] = fv
         val = getattr(ret, "value", None)
         if fv.value is not val and not (fv.value == val):
             if len(viol) < 5:
-                viol.append({"mech": "purity:value-not-stored-in-holder", "key": list(key)})
+                viol.append({"mech": "purity:value-not-stored-in-holder", "key": list(key), "how": how})
         same = (list(pt.floatVariables) == before) if as_list else (np.array_equal(pt.floatVariables, before) and pt.floatVariables is arg)
         if not same:
             if len(viol) < 5:
@@ -112,7 +100,90 @@ def run_case(c):
         if not (float(val) == float(cv) or (val != val and cv != cv)):
             if len(viol) < 5:
                 viol.append({"mech": "purity:value-depends-on-history", "key": list(key), "fid": fid, "point": [float(v) for v in y], "got": float(val),
-                             "canonical": float(cv), "evaluations_before": nev, "live_instances": len(pool)})
+                             "canonical": float(cv), "evaluations_before": nev, "live_instances": len(pool), "how": how})
+
+    def siblings(key, inst):
+        d = len(bench.bounds(inst)[0])
+        return [(k2, i2) for k2, i2 in pool if k2[0] == key[0] and i2 is not inst and len(bench.bounds(i2)[0]) == d]
+
+    for step in range(c["evals"] * 2):
+        if nev >= c["evals"]:
+            break
+        u = rng.random()
+        if not pool or u < 0.12:
+            v = rng.random()
+            if pool and v < 0.3:
+                key = pool[int(rng.integers(len(pool)))][0]                  # a second copy of a live member
+            elif pool and v < 0.55:
+                k0 = pool[int(rng.integers(len(pool)))][0]                   # another member of a live family (same dimension)
+                key = k0
+                for _ in range(20):
+                    k1 = random_key(rng)
+                    if k1[0] == k0[0] and (k0[0] != "gkls" or k1[1] == k0[1]) and (k0[0] not in ("rastrigin", "xsquared")):
+                        key = k1
+                        break
+            else:
+                key = random_key(rng)
+            inst = bench.construct(key)
+            pool.append((key, inst))
+            obs["constructions"] = obs.get("constructions", 0) + 1
+            if rng.random() < 0.5:
+                # the very first evaluation after construction is at the declared optimum point (constructors evaluate there)
+                try:
+                    yd, _ = bench.declared(inst)
+                    if len(yd) == len(bench.bounds(inst)[0]):
+                        do_eval(key, inst, yd.copy(), None, "declared-point-first")
+                except Exception:
+                    pass
+            if len(pool) > 60:
+                pool.pop(int(rng.integers(len(pool))))
+            continue
+        key, inst = pool[int(rng.integers(len(pool)))]
+        lo, hi = bench.bounds(inst)
+        plist = points.setdefault(key, [])
+        fplist = fam_points.setdefault((key[0], len(lo)), [])
+        u = rng.random()
+        how = "random"
+        if plist and u < 0.35:
+            y = plist[int(rng.integers(len(plist)))].copy()
+            how = "repeat-own"
+        elif fplist and u < 0.55:
+            y = fplist[int(rng.integers(len(fplist)))].copy()               # a point some sibling member was evaluated at
+            how = "repeat-family"
+        elif u < 0.6:
+            try:
+                y = bench.declared(inst)[0].copy()
+                how = "declared-point"
+                if len(y) != len(lo):
+                    raise ValueError
+            except Exception:
+                y = 0.5 * (lo + hi)
+                how = "centre"
+        else:
+            y = lo + rng.random(len(lo)) * (hi - lo)
+            if rng.random() < 0.1:
+                y = np.where(rng.random(len(lo)) < 0.5, lo, hi).astype(float)
+                how = "corner"
+        if not (np.all(y >= lo) and np.all(y <= hi)):
+            y = np.clip(y, lo, hi)
+        plist.append(y.copy())
+        if len(fplist) < 200:
+            fplist.append(y.copy())
+        fid = None
+        if key[0] == "stronginc3" and rng.random() < 0.6:
+            fid = int(rng.integers(0, 3))
+        do_eval(key, inst, y, fid, how)
+        v = rng.random()
+        if v < 0.12:
+            do_eval(key, inst, y.copy(), fid, "immediate-repeat")
+        elif v < 0.3:
+            sib = siblings(key, inst)
+            if sib:
+                k2, i2 = sib[int(rng.integers(len(sib)))]
+                do_eval(k2, i2, y.copy(), fid, "sibling-same-point")         # the bit-identical point on another member
+                do_eval(key, inst, y.copy(), fid, "after-sibling")
+                if k2 != key:
+                    obs["cross_member_same_point"] = obs.get("cross_member_same_point", 0) + 1
     if c["xproc"] and xq:
         p = subprocess.run([sys.executable, "-W", "ignore", "-m", "vlib.child_run"],
                            input=json.dumps({"what": "bench-values", "queries": [[k, y] for k, y, v in xq]}),
@@ -140,4 +211,7 @@ def finalize(obs, tier, stats):
         return "not all eight families evaluated: %s" % obs.get("families"), {}
     if not obs.get("fresh_interpreter_values"):
         return "fresh-interpreter comparison never ran", {}
+    missing = [k for k in ("cross_member_same_point", "how_immediate-repeat", "how_declared-point-first", "holder_reused", "how_repeat-family") if not obs.get(k)]
+    if missing:
+        return "history shapes never produced: %s" % missing, {}
     return None, {}
